@@ -4,6 +4,7 @@
 mod cfg;
 mod client;
 mod codec;
+mod envelope;
 mod keys;
 mod merkle;
 mod rig;
@@ -55,6 +56,7 @@ fn main() {
         "srv" => srv::run(&ctx),
         "sign" => keys::run_sign(&ctx),
         "cfg" => cfg::run(&ctx),
+        "envelope" => envelope::run(&ctx),
         "client-honest" => client::run_honest(&ctx),
         "client-forged" => client::run_forged(&ctx),
         "stats" => stats::run(&ctx),
@@ -96,6 +98,7 @@ fn replay(ctx: &Ctx) {
             "merkle" => merkle::replay_one(&mut out, args),
             "srv" => srv::replay_one(&mut out, args),
             "cfg" => cfg::replay_one(&mut out, args),
+            "envenc" | "envdec" => envelope::replay_one(&mut out, op, args),
             "client" => client::replay_one(&mut out, args),
             "stats" | "rep" => stats::replay_one(&mut out, op, args),
             "sign" | "vrf" | "ltk" | "srep" => keys::replay_one(&mut out, op, args),
